@@ -10,6 +10,7 @@ CONSTANTS
   FixSave = FALSE
   FixRecover = TRUE
   FixRelease = TRUE
+  SplitCleanup = FALSE
 VIEW View
 INVARIANT AccountedEqualsLive
 INVARIANT Coherent
